@@ -122,6 +122,7 @@ package channels
 //@   reads
 //@   ensures [flush] only(Group.GetSync) && called(Group.GetSync, _, _, chid)
 //@   ensures [found] (err == nil) == (result != nil)
+//@   ensures [found-iff-read] {C06,C19} calls(Group.GetSync) == 1 && ((err == nil) == (ret(Group.GetSync, 0) == nil))
 //@   ensures [snapshot] err == nil ==> dyntype_is(result, channelState)
 
 //@ func (*channels.Channels).HasChannel {C02}
@@ -520,6 +521,7 @@ package channels
 //@ func (*channels.Channels).InProgress {C06}
 //@   loop 0 invariant [listing] $i >= 0
 //@   ensures [lists-through-group] calls(Group.List) == 1 && only(Group.List)
+//@   ensures [list-error] {C06} (err == nil) == (ret(Group.List, 0) == nil) && (err != nil ==> err == ret(Group.List, 0))
 
 // lock effects of this package's interfaces (C20)
 //@ extern func (channels.ChannelEnvironment).CleanupChannel
